@@ -333,6 +333,11 @@ func harnesses() []harness {
 				// delete versions that are not being read.)
 				pinnedThroughout := expOpened >= 0 && expOpened <= delStart && expClosed >= delEnd
 				if pinnedThroughout {
+					observe("pinned-during-the-whole-deletion(err=%v)", delErr != nil)
+				} else {
+					observe("not-pinned-throughout(err=%v)", delErr != nil)
+				}
+				if pinnedThroughout {
 					if delErr == nil {
 						rw.add("DeleteVersionsTo(2) succeeded although version 2 was pinned by an open export during the whole call (opened at step %d, deletion steps %d..%d, closed at step %d)", expOpened, delStart, delEnd, expClosed)
 					}
@@ -650,6 +655,76 @@ func harnesses() []harness {
 				return strings.Join(append(append(rw.lines, re.lines...), r2.lines...), "; ")
 			}
 		}},
+		{"H12 export opened while a commit is in progress: writer(Set, SaveVersion, DeleteVersionsTo(2)) || exporter(Export v2, read all, Close) || export goroutine: pinning", func(cfg c06Cfg) ([]func(), func() string) {
+			t := prelude(cfg)
+			t2, err := t.GetImmutable(2)
+			if err != nil {
+				panic(err)
+			}
+			var rw, re rec
+			var delStart, delEnd, expOpened, expClosed int32 = -1, -1, -1, -1
+			var delErr error
+			var nodes int
+			var nextErr error
+			v4 := map[string]string{"a": "7", "b": "2", "c": "3"}
+			writer := func() {
+				if _, err := t.Set([]byte("a"), []byte("7")); err != nil {
+					rw.add("writer: Set(a): %v", err)
+				}
+				if _, v, err := t.SaveVersion(); err != nil || v != 4 {
+					rw.add("writer: SaveVersion = %d, %v", v, err)
+				}
+				delStart = vrt.StepIndex()
+				delErr = t.DeleteVersionsTo(2)
+				delEnd = vrt.StepIndex()
+			}
+			exporter := func() {
+				e, err := t2.Export()
+				if err != nil {
+					re.add("exporter: Export(v2): %v", err)
+					return
+				}
+				expOpened = vrt.StepIndex()
+				for {
+					_, err := e.Next()
+					if err != nil {
+						if !errors.Is(err, iavl.ErrorExportDone) {
+							nextErr = err
+						}
+						break
+					}
+					nodes++
+				}
+				expClosed = vrt.StepIndex()
+				e.Close()
+			}
+			return []func(){writer, exporter}, func() string {
+				// as H4: the statement is about an export that was open during the whole deletion call
+				const want = 7
+				pinnedThroughout := expOpened >= 0 && expOpened <= delStart && expClosed >= delEnd
+				if pinnedThroughout {
+					observe("pinned-during-the-whole-deletion(err=%v)", delErr != nil)
+				} else {
+					observe("not-pinned-throughout(err=%v)", delErr != nil)
+				}
+				if pinnedThroughout {
+					if delErr == nil {
+						rw.add("DeleteVersionsTo(2) succeeded although version 2 was pinned by an open export during the whole call (opened at step %d, deletion steps %d..%d, closed at step %d)", expOpened, delStart, delEnd, expClosed)
+					}
+					if nextErr != nil || nodes != want {
+						re.add("export of the pinned version 2 delivered %d of %d nodes (error: %v)", nodes, want, nextErr)
+					}
+					var r2 rec
+					epilogue(&r2, t, map[int64]map[string]string{1: c06Contents[1], 2: c06Contents[2], 3: c06Contents[3], 4: v4})
+					rw.lines = append(rw.lines, r2.lines...)
+				} else if delErr == nil {
+					var r2 rec
+					epilogue(&r2, t, map[int64]map[string]string{3: c06Contents[3], 4: v4})
+					rw.lines = append(rw.lines, r2.lines...)
+				}
+				return strings.Join(append(rw.lines, re.lines...), "; ")
+			}
+		}},
 		{"H7 writer(Remove,Set,SaveVersion) || reader(GetImmutable(4) as soon as it exists: Get, Has, Iterator)", func(cfg c06Cfg) ([]func(), func() string) {
 			t := prelude(cfg)
 			var rw, rr rec
@@ -939,7 +1014,7 @@ func init() {
 			if only := os.Getenv("VERIF_C06_ONLY"); only != "" && !strings.HasPrefix(hs[hi].name, only) {
 				continue // development aid
 			}
-			if strings.HasPrefix(hs[hi].name, "H10") && os.Getenv("VERIF_H4") != "1" {
+			if (strings.HasPrefix(hs[hi].name, "H10") || strings.HasPrefix(hs[hi].name, "H12")) && os.Getenv("VERIF_H4") != "1" {
 				skipped = append(skipped, hs[hi].name+": the export.go rewrite did not apply to this tree")
 				continue
 			}
@@ -956,7 +1031,7 @@ func init() {
 				continue
 			}
 			for ci := range cfgs {
-				three := strings.HasPrefix(hs[hi].name, "H3") || strings.HasPrefix(hs[hi].name, "H4") || strings.HasPrefix(hs[hi].name, "H5") || strings.HasPrefix(hs[hi].name, "H8") || strings.HasPrefix(hs[hi].name, "H10") || strings.HasPrefix(hs[hi].name, "H11")
+				three := strings.HasPrefix(hs[hi].name, "H3") || strings.HasPrefix(hs[hi].name, "H4") || strings.HasPrefix(hs[hi].name, "H5") || strings.HasPrefix(hs[hi].name, "H8") || strings.HasPrefix(hs[hi].name, "H10") || strings.HasPrefix(hs[hi].name, "H11") || strings.HasPrefix(hs[hi].name, "H12")
 				if c.Tier == "quick" && three && ci != 1 && ci != 2 {
 					continue // quick: the 3-thread harnesses run under two configurations (cache 100 + index, cache 0 without)
 				}
@@ -986,7 +1061,7 @@ func init() {
 				bin = raceBin
 				b = bound - 1
 			}
-			three := strings.HasPrefix(hs[j.hi].name, "H3") || strings.HasPrefix(hs[j.hi].name, "H4") || strings.HasPrefix(hs[j.hi].name, "H5") || strings.HasPrefix(hs[j.hi].name, "H8") || strings.HasPrefix(hs[j.hi].name, "H10") || strings.HasPrefix(hs[j.hi].name, "H11")
+			three := strings.HasPrefix(hs[j.hi].name, "H3") || strings.HasPrefix(hs[j.hi].name, "H4") || strings.HasPrefix(hs[j.hi].name, "H5") || strings.HasPrefix(hs[j.hi].name, "H8") || strings.HasPrefix(hs[j.hi].name, "H10") || strings.HasPrefix(hs[j.hi].name, "H11") || strings.HasPrefix(hs[j.hi].name, "H12")
 			if three {
 				b-- // three threads: one preemption less
 			}
@@ -1139,7 +1214,7 @@ func init() {
 			"explanation_c06": "every schedule (choice sequence at lock acquisitions and storage calls) with at most the stated number of preemptions is executed on the real code; the -race build runs the same enumeration with the race detector active inside each schedule (the scheduler's hand-off uses raw futex calls from norace code and adds no happens-before edge)"}
 		res.Assumptions = []string{
 			"scheduling points: every Lock/RLock of the sync primitives used by iavl (rebuilt against the shim) and every storage call; code between two points runs atomically in the explorer (races inside such blocks are the race detector's job)",
-			"harnesses H1-H11: 2-3 threads, <= 3 operations each, one writer; H4 (export pinning vs pruning: the exporter goroutine and its channel run under the scheduler) and H5 (background pruning loop, SetCommitting/UnsetCommitting) use the rewritten export.go / nodedb.go of the sched build and are skipped (recorded in skipped_harnesses) if the rewrite does not apply to the current tree",
+			"harnesses H1-H12: 2-3 threads, <= 3 operations each, one writer; H4 (export pinning vs pruning: the exporter goroutine and its channel run under the scheduler) and H5 (background pruning loop, SetCommitting/UnsetCommitting) use the rewritten export.go / nodedb.go of the sched build and are skipped (recorded in skipped_harnesses) if the rewrite does not apply to the current tree",
 			"the storage is check/vstore (MemDB-like locking, snapshot iterators)",
 		}
 		return res
